@@ -175,8 +175,13 @@ def _pbkdf_p12(hash_alg: HashType, passphrase: BytesOrStr, salt: bytes,
     v = hash_alg().block_size
     D = v * bytes((idx,))
 
-    if isinstance(passphrase, str):
-        passphrase = passphrase.encode('utf-16be')
+    if isinstance(passphrase, bytes):
+        try:
+            passphrase = passphrase.decode('utf-8')
+        except UnicodeDecodeError:
+            passphrase = passphrase.decode('latin-1')
+
+    passphrase = passphrase.encode('utf-16be')
 
     I = bytearray(_make_block(salt, v) + _make_block(passphrase + b'\0\0', v))
 
